@@ -12,6 +12,8 @@ pub mod events;
 mod helpers;
 mod imp;
 pub mod structured;
+#[cfg(nextest_verif)]
+mod verif_tap;
 
 pub use displayer::{FinalStatusLevel, StatusLevel, TestOutputDisplay};
 pub use error_description::*;
